@@ -69,7 +69,7 @@ def run(ctx, rep):
     from ..inline import inline as _inl
 
     def _xor_like(g):
-        if g.argc != 2 or "&mut [u8]" not in g.locals[1]["t"]:
+        if g.argc != 2 or sorted(("&mut [u8]" in g.locals[i_]["t"]) for i_ in (1, 2)) != [False, True]:
             return False
         return any(s_["rv"]["k"] == "binop" and s_["rv"]["op"] == "BitXor" for u in prog.unit(g) for _, _, s_ in u.assigns())
     pv = _inl(prog, pull, keep=(_xor_like,))
@@ -89,10 +89,14 @@ def run(ctx, rep):
     from ..inline import inline
 
     def xor_like(g):
-        # crate-local two-slice writer containing a BitXor: (&mut [u8], &[u8])
-        if g.argc != 2 or "&mut [u8]" not in g.locals[1]["t"]:
+        # crate-local two-slice writer containing a BitXor: one `&mut [u8]` and one `&[u8]`, in either order
+        if g.argc != 2 or sorted(("&mut [u8]" in g.locals[i_]["t"]) for i_ in (1, 2)) != [False, True]:
             return False
         return any(s_["rv"]["k"] == "binop" and s_["rv"]["op"] == "BitXor" for u in prog.unit(g) for _, _, s_ in u.assigns())
+
+    def xor_src(c):
+        g_ = prog.callee_fns(c)[0]
+        return 0 if "&mut [u8]" in g_.locals[2]["t"] else 1
     keep = (xor_like,)
     state_param = lambda f: [p for p in cm.params_of(f) if f.locals[p]["t"].endswith("State") and "mut" in f.locals[p]["t"]][0]
     # (the crate's small arithmetic/byte utilities in utils.rs are folded in as well, except the xor)
@@ -121,8 +125,8 @@ def run(ctx, rep):
                 for a in x.args[1:]:
                     for l in operand_locals(a):
                         macroots.add(cm.view_info(f, l)[0])
-            r = cm.view_info(f, list(operand_locals(c.args[1]))[0])[0]
-            rep.ob("EVOLVE", "%s|xor operand is the computed MAC" % f.name[-4:], r in macroots, "second operand root `%s`" % f.local_name(r), loc=c.loc())
+            r = cm.view_info(f, list(operand_locals(c.args[xor_src(c)]))[0])[0]
+            rep.ob("EVOLVE", "%s|xor operand is the computed MAC" % f.name[-4:], r in macroots, "source operand root `%s`" % f.local_name(r), loc=c.loc())
     # ---- LOCKSTEP -----------------------------------------------------------------------------
     def post_mac(f):
         st = state_param(f)
